@@ -173,6 +173,26 @@ def run(tier, seed):
             if rc != 0 or tree_digest(keep) != base:
                 failures.append({"kind": "pre-populated-run-differs", "tree": tname})
                 break
+            # ... and into a directory whose files of the same names are LONGER and different (an earlier revision of
+            # the specification) plus a stale module that no longer exists
+            stale = os.path.join(tmp, "out", f"{tname}-stale")
+            shutil.copytree(keep, stale)
+            for d, _, fs in os.walk(stale):
+                for fn in fs:
+                    if fn.endswith(".py"):
+                        with open(os.path.join(d, fn), "a", encoding="utf-8") as fh:
+                            fh.write("\n\nclass StaleLeftover:\n    pass\n" + "# stale\n" * 40)
+            rc, err = gen(spec, stale, 5, 3)
+            evals += 1
+            distinct.add((tname, "prepopulated-with-longer-files"))
+            dg = tree_digest(stale) if rc == 0 else None
+            if dg != base:
+                diff = sorted(k for k in set(dg or {}) | set(base) if (dg or {}).get(k) != base.get(k))
+                failures.append({"kind": "run-into-a-directory-with-longer-files-differs", "tree": tname, "files": diff[:6],
+                                 "error": err.strip().splitlines()[-1] if rc != 0 and err.strip() else ""})
+                shutil.rmtree(stale, ignore_errors=True)
+                break
+            shutil.rmtree(stale, ignore_errors=True)
             # every emitted file compiles; file set = one module per declared type + one __init__ per protocol file
             sp = X.load_tree(spec)
             want = set()
